@@ -51,7 +51,7 @@ def _work(chunk):
     replies = model_batch(lines)
     res = []
     for (c, o, s), rep in zip(chunk, replies):
-        m, _, mt = rep.partition(' ## ')
+        m, _, mt = rep.rpartition(' ## ')
         i, it = impl_run(c, o, s)
         mt = '.'.join(h for h in mt.split('.') if h and chr(int(h, 16)) not in _initial_keys)
         res.append((canon.norm_outcome(i), canon.norm_outcome(m), it, mt))
